@@ -17,8 +17,41 @@ def run_one(pid, tier, repo, seed, replay=None):
         chk = Check(pid, tier=tier, repo=repo, seed=seed, level=getattr(mod, 'LEVEL', 'other'))
         chk.explanation = getattr(mod, 'EXPLANATION', '')
         mod.run(chk)
-        return chk.finish()
+        rc = chk.finish()
+        if tier == 'thorough' and not os.environ.get('VERIF_NO_SELFTEST'):
+            selftest(pid, repo)
+        return rc
     return run_guarded(pid, body)
+
+
+def selftest(pid, repo):
+    """thorough tier only, informational: run this property's catalogue of mutants (must be reported) and refactor twins (must stay silent) against scratch copies of
+    the tree under analysis and record the outcome in the evidence file.  The exit code of the check is that of the property on the tree itself."""
+    import subprocess, tempfile
+    from .core import report as R
+    here = os.path.dirname(os.path.dirname(os.path.abspath(__file__)))
+    out = tempfile.NamedTemporaryFile(prefix='vselftest_', suffix='.json', delete=False); out.close()
+    try:
+        env = dict(os.environ); env['VERIF_REPO'] = repo; env['VERIF_TIER'] = 'quick'
+        r = subprocess.run([sys.executable, '-B', os.path.join(here, 'selftest', 'run.py'), '--only', pid, '--jobs', str(min(16, os.cpu_count() or 4)), '--json', out.name],
+                           capture_output=True, text=True, env=env, timeout=3600)
+        try:
+            res = json.load(open(out.name))
+        except Exception:
+            res = {'error': (r.stdout + r.stderr)[-400:]}
+        summary = {k: res.get(k) for k in ('variants', 'mutants', 'twins', 'unexpected')}
+        summary['not_as_expected'] = [row for row in res.get('rows', []) if row.get('status') != 'OK'][:20]
+        print(f'SELFTEST {pid}: {summary.get("variants")} variants ({summary.get("mutants")} mutants, {summary.get("twins")} refactor twins), {summary.get("unexpected")} not as expected')
+        ev = os.path.join(R.EVID_DIR, f'{pid}.json')
+        if os.path.exists(ev):
+            d = json.load(open(ev))
+            d['coverage']['checker_selftest'] = summary
+            json.dump(d, open(ev, 'w'), indent=1, default=str)
+    except Exception as e:          # informational only
+        print(f'SELFTEST {pid}: could not be run ({type(e).__name__}: {e})')
+    finally:
+        try: os.unlink(out.name)
+        except OSError: pass
 
 
 def main(argv=None):
